@@ -74,6 +74,10 @@ def sameKind (t1 t2 : Nat) : Bool :=
 
 def levelOf (d : Dump) (depth : Int) : Option Level := d.levels.find? (fun l => l.depth == depth)
 
+/-- `hwloc_bitmap_first` of a finite set given as a mask: −1 when empty -/
+def firstI (m : Nat) : Int :=
+  if m = 0 then -1 else (((List.range (m.log2 + 1)).find? (fun i => m.testBit i)).getD 0 : Nat)
+
 /-- clauses about one object; each returns `true` when satisfied -/
 def objClauses : List (String × (Dump → Aux → Obj → Bool)) := [
   ("id-is-position", fun d _ o => (d.objs[o.id]?).map (·.id) == some o.id),
@@ -177,7 +181,18 @@ def objClauses : List (String × (Dump → Aux → Obj → Bool)) := [
       if isDCache o.type then (ctype == 0 || ctype == 1) && depth == ((o.type - tL1 + 1 : Nat) : Int)
       else if isICache o.type then ctype == 2 && depth == ((o.type - tL1I + 1 : Nat) : Int)
       else true),
-  ("group-depth", fun _ _ o => if o.type == tGROUP then (o.attrs[0]?).getD 0 != 4294967295 else true)
+  ("group-depth", fun _ _ o => if o.type == tGROUP then (o.attrs[0]?).getD 0 != 4294967295 else true),
+  -- order of children lists (asserted by hwloc__check_children_cpusets / hwloc__check_nodesets): normal children by the first
+  -- bit of their complete_cpuset with the CPU-less ones last, memory children by the first bit of their complete_nodeset
+  ("siblings-ordered", fun d _ o => match d.obj? o.nextSib with
+      | none => true
+      | some nx =>
+        if isNormal o.type && isNormal nx.type then
+          decide (firstI (nx.ccpuset.getD 0) < 0) ||
+          (decide (0 ≤ firstI (o.ccpuset.getD 0)) && decide (firstI (o.ccpuset.getD 0) < firstI (nx.ccpuset.getD 0)))
+        else if isMemory o.type && isMemory nx.type then
+          decide (firstI (o.cnodeset.getD 0) < firstI (nx.cnodeset.getD 0))
+        else true)
 ]
 
 /-- clauses about the topology as a whole -/
